@@ -30,12 +30,16 @@ func VerifC07Single() {
 	end := uint64(N)
 	if verifChoice("until", 2) == 1 {
 		u := verifU8("until_id")
-		verifAssume(u >= 1 && int(u) <= N && uint64(u) > start)
+		// any history entry (older than, equal to or newer than `before`) or, with id N+1, a signature
+		// that is not in the history; the run ends with `until` only if `until` lies in the run after
+		// `before`, otherwise at the oldest entry
+		verifAssume(u >= 1 && int(u) <= N+1)
 		s := verifC07Sig(0)
 		s[0] = u
 		s[63] = u ^ 0x5A
 		until = &s
-		end = uint64(u)
+		inRun := verifIteU64(uint64(u) > start, verifIteU64(int(u) <= N, 1, 0), 0)
+		end = verifIteU64(inRun != 0, uint64(u), uint64(N))
 	}
 	limit := verifInt("limit")
 	verifAssume(limit >= -1 && limit <= 1<<31)
